@@ -505,6 +505,13 @@ func (s *Sess) RemoveBAR(req *ie.IE) error {
 }
 
 func (s *Sess) Push(pdrid uint16, p []byte) {
+	if _, ok := s.PDRIDs[pdrid]; !ok {
+		// a notification that was on its way when the PDR was removed: nothing
+		// the session has could release the packet, and a PDR created later
+		// under the same id must not inherit it
+		s.log.Debugf("Push: PDR[%d] not found, drop bufPkt", pdrid)
+		return
+	}
 	pkt := make([]byte, len(p))
 	copy(pkt, p)
 	q, ok := s.q[pdrid]
